@@ -242,7 +242,7 @@ def interfaces(ob, which, d, k):
     ob.frame()
 
 
-@scenario('C12', 'local_system.first_step', ['torchtt.solvers._amen_solve_python'],
+@scenario('C12', 'local_system.first_step', ['torchtt.solvers.amen_solve', 'torchtt.solvers._amen_solve_python'],
           quick=[dict(d=2, guess=g, direct=True) for g in (False, True)] + [dict(d=2, guess=False, direct=False)], replay=None, max_paths=400)
 def local_system_first_step(ob, d, guess, direct):
     """call-site contract inside the real sweep: at the first local solve of the first sweep of amen_solve the system handed to
@@ -277,7 +277,7 @@ def local_system_first_step(ob, d, guess, direct):
         L = fr.locals
         k = L['k']
         Pl, Pr, Pbl, Pbr = L['Phis'][k], L['Phis'][k + 1], L['Phis_b'][k], L['Phis_b'][k + 1]
-        Ak, bk, rx, nrmsc = L['A'].attrs['cores'][k], L['b'].attrs['cores'][k], L['rx'], L['nrmsc']
+        Ak, bk, rx, nrmsc = A.attrs['cores'][k], b.attrs['cores'][k], L['rx'], L['nrmsc']     # the cores of the ARGUMENTS (not of a local rebinding of A, b)
         ob.prove('first_solve_is_core_0', k == 0)
         sizes = [rx[k], L['N'][k], rx[k + 1]]
         exp = [T.Factor(T.sz(to_int(s_)) if not isinstance(s_, int) else s_) for s_ in sizes]
@@ -316,16 +316,24 @@ def local_system_first_step(ob, d, guess, direct):
         _self, Pl, Pr, coreA, shape = args[0], args[1], args[2], args[3], args[4]
         ob.prove('operator.left_interface_is_Phis_k', Pl is L['Phis'][k])
         ob.prove('operator.right_interface_is_Phis_k_plus_1', Pr is L['Phis'][k + 1])
-        ob.prove('operator.core_is_A_k', coreA is L['A'].attrs['cores'][k])
+        want = A.attrs['cores'][k]
+        if coreA is want:
+            ob.ok('operator.core_is_A_k', 'post')
+        elif isinstance(coreA, STensor) and coreA._val is not None and coreA.ndim == 4:
+            all_eq(ob, 'operator.core_is_A_k.shape', coreA.shape, want.shape)
+            i = H.fresh_axis_index(ex_, want)
+            ob.prove_eq('operator.core_is_A_k.value', coreA.at(i), want.at(i))
+        else:
+            ob.fail('operator.core_is_A_k', 'post', 'the operator is not built from the core of the argument A')
         all_eq(ob, 'operator.shape', list(shape), [L['rx'][k], L['N'][k], L['rx'][k + 1]])
         raise I.PathEnd()
     ex.ext_hooks = {'torch.linalg.solve': on_solve}
     ex.call_hooks['torchtt.solvers._LinearOp.__init__'] = on_linear_op
     if direct:
         ex.assume(N[0] * 8 < 400)
-    f = ex.module('torchtt.solvers').env['_amen_solve_python']
+    f = ex.module('torchtt.solvers').env['amen_solve']          # through the public wrapper
     try:
-        ex.call(f, [A, b], {'nswp': 1, 'x0': g, 'max_full': 500 if direct else 0, 'local_solver': 1})
+        ex.call(f, [A, b], {'nswp': 1, 'x0': g, 'max_full': 500 if direct else 0, 'local_solver': 1, 'use_cpp': False})
     finally:
         pass
     ob.fail('local_solve_reached', 'post', 'the sweep finished without a local solve')
